@@ -64,6 +64,22 @@ def radial(n, m, r):
     return out
 
 
+def radial_exact(n, m, r2_fractions):
+    """R_n^|m| at radii whose SQUARES are the given Fractions: the polynomial in r^2 is summed in rational arithmetic (no
+    cancellation whatever the order), rounded once, and multiplied by r^|m|."""
+    from fractions import Fraction
+    m = abs(m)
+    K = (n - m) // 2
+    coef = [(-1) ** k * math.comb(n - k, k) * math.comb(n - 2 * k, K - k) for k in range(K + 1)]
+    out = []
+    for q in r2_fractions:
+        acc = Fraction(0)
+        for c in coef:                      # Horner in q: sum_k c_k q^(K-k)
+            acc = acc * q + c
+        out.append(float(acc) * float(q) ** (m / 2.0))
+    return np.array(out)
+
+
 def mode(n, m, N):
     """Noll-normalised Zernike (n, m) on the N x N pixel-centre grid of the inscribed unit pupil."""
     c = (np.arange(N) + 0.5 - N / 2.0) / (N / 2.0)
@@ -90,6 +106,12 @@ def self_test():
             assert n[j] == nn and m[j] == mm, (j, nn, mm, n[j], m[j])
     for j, nn, mm in noll_rows(60):
         assert noll_single(j) == (nn, mm), (j, nn, mm, noll_single(j))
+    from fractions import Fraction
+    qs = [Fraction(k, 16) for k in range(17)]
+    rr = np.sqrt(np.array([float(q) for q in qs]))
+    for nn, mm in ((2, 0), (4, 0), (3, 1), (6, 2), (11, 5)):
+        assert np.allclose(radial_exact(nn, mm, qs), radial(nn, mm, rr), atol=1e-12), (nn, mm)
+    assert abs(radial_exact(60, 0, [Fraction(1)])[0] - 1) < 1e-12 and np.max(np.abs(radial_exact(60, 0, qs))) <= 1 + 1e-12
     # radial polynomials: R_n^m(1) = 1, known forms
     r = np.linspace(0, 1, 7)
     assert np.allclose(radial(2, 0, r), 2 * r ** 2 - 1)
